@@ -31,13 +31,23 @@ let token_of_line (t : string) : string =
   if t = "" then "=" else String.map (fun c -> if c = ' ' then '/' else if c = '\r' then '~' else c) t
 
 (* the physical lines of a file made of the records (number, rest): "%07d <rest>\n" each *)
-let phys_lines (f : (nat * z list) list) : string list =
-  let all = String.concat "" (List.map (fun (s, t) -> Printf.sprintf "%07d %s\n" (int_of_nat s) (string_of_ztext t)) f) in
+let phys_lines (noseq : bool) (f : (nat * z list) list) : string list =
+  let all = String.concat "" (List.map (fun (s, t) ->
+              if noseq then string_of_ztext t ^ "\n" else Printf.sprintf "%07d %s\n" (int_of_nat s) (string_of_ztext t)) f) in
   match List.rev (split_on '\n' all) with
   | "" :: r -> List.rev r
   | r -> List.rev r
 
 (* physical lines -> records: a line "ddddddd <..>" begins a record, other lines continue the text of the record before *)
+(* a logger without the sequence flag writes no numbers: every physical line is a record (no line ends in the texts of
+   such cases); the number the model keeps for it is its ordinal in its series (one series, or in/out with direction) *)
+let records_noseq (d : bool) (ls : string list) : (nat * z list) list =
+  let si = ref 0 and so = ref 0 in
+  List.map (fun l ->
+    let isin = d && String.length l >= 3 && String.sub l 0 3 = " in" in
+    let n = if (not d) || isin then (incr si; !si) else (incr so; !so) in
+    (nat_of_int n, ztext l)) ls
+
 let records_of_lines (ls : string list) : (nat * z list) list =
   let starts l = String.length l >= 8 && l.[7] = ' ' &&
                  (let ok = ref true in String.iteri (fun i c -> if i < 7 && (c < '0' || c > '9') then ok := false) l; !ok) in
@@ -59,20 +69,21 @@ let field (name : string) (impl : string) : string option =
     if acc = None && String.length w >= String.length pre && String.sub w 0 (String.length pre) = pre
     then Some (String.sub w (String.length pre) (String.length w - String.length pre)) else acc) None (words impl)
 
-let show_obs (o : obs) : string =
+let show_obs (noseq : bool) (o : obs) : string =
   let rets = String.concat "," (List.map (fun r -> if r = [] then "-" else String.concat "" (List.map b01 r)) o.o_rets) in
-  let ls = phys_lines o.o_file in
+  let ls = phys_lines noseq o.o_file in
   let file = if ls = [] then "-" else String.concat "," (List.map token_of_line ls) in
   Printf.sprintf "rets=%s stop=%s file=%s post=%d" rets (b01 o.o_stopped) file (List.length ls)
 
 (* implementation observables; None if the result is not of the expected shape *)
-let impl_obs (impl : string) : obs option =
+let impl_obs (noseq : bool) (d : bool) (impl : string) : obs option =
   match field "rets" impl, field "stop" impl, field "file" impl with
   | Some r, Some st, Some f ->
     (try
       let rets = List.map (fun s -> if s = "-" then [] else List.init (String.length s) (fun i ->
                    match s.[i] with '1' -> true | '0' -> false | _ -> failwith "ret")) (split_on ',' r) in
-      let file = if f = "-" then [] else records_of_lines (List.map line_of_token (split_on ',' f)) in
+      let lines = if f = "-" then [] else List.map line_of_token (split_on ',' f) in
+      let file = if noseq then records_noseq d lines else records_of_lines lines in
       (* everything that is in the file after the logger's destruction must have been there when stop() returned *)
       let nl = if f = "-" then 0 else List.length (split_on ',' f) in
       (match field "post" impl with
@@ -86,17 +97,18 @@ let impl_obs (impl : string) : obs option =
 let order_of (f : string) (np : int) : nat list =
   if f = "-" then [] else
   List.filter_map (fun tok ->
-    match String.rindex_opt tok '/' with
-    | None -> None
-    | Some p ->
+    let p = (match String.rindex_opt tok '/' with Some p -> p | None -> -1) in
+    begin
       let t = String.sub tok (p + 1) (String.length tok - p - 1) in
       (match String.index_opt t '.' with
        | None -> None
        | Some d -> (try let i = int_of_string (String.sub t 0 d) in
-                        if i >= 0 && i < np then Some (nat_of_int i) else None with _ -> None))) (split_on ',' f)
+                        if i >= 0 && i < np then Some (nat_of_int i) else None with _ -> None))
+    end) (split_on ',' f)
 
 let () = run_protocol (fun case impl ->
-  let go mask progs dir vals txts =
+  let go mask progs dir vals txts layout =
+    let noseq = String.contains layout 'Q' in
     let m = z_of_string mask and ps = parse_progs progs (parse_vals txts) and d = (dir = "1") and va = parse_vals vals in
     let vf (i : nat) (k : nat) : z =
       let i = int_of_nat i and k = int_of_nat k in
@@ -107,12 +119,12 @@ let () = run_protocol (fun case impl ->
     let order = order_of f (List.length ps) in
     let o = run_case m d vf order ps in
     let om = c28_ok d m vf ps o in
-    let oi = (match impl_obs impl with Some io -> c28_ok d m vf ps io | None -> false) in
-    (show_obs o, oi, om) in
+    let oi = (match impl_obs noseq d impl with Some io -> c28_ok d m vf ps io | None -> false) in
+    (show_obs noseq o, oi, om) in
   match words case with
-  | [_mode; mask; _delay; progs] -> go mask progs "0" "-" "-"
-  | [_mode; mask; _delay; progs; dir; vals] -> go mask progs dir vals "-"
-  | [_mode; mask; _delay; progs; dir; vals; _kind; _layout; _locs; txts] -> go mask progs dir vals txts
+  | [_mode; mask; _delay; progs] -> go mask progs "0" "-" "-" "-"
+  | [_mode; mask; _delay; progs; dir; vals] -> go mask progs dir vals "-" "-"
+  | [_mode; mask; _delay; progs; dir; vals; _kind; layout; _locs; txts] -> go mask progs dir vals txts layout
   (* logger kind, layout flags, file/line strings: they change the layout of a line, not what the harness extracts from it *)
-  | [_mode; mask; _delay; progs; dir; vals; _kind; _layout; _locs] -> go mask progs dir vals "-"
+  | [_mode; mask; _delay; progs; dir; vals; _kind; layout; _locs] -> go mask progs dir vals "-" layout
   | _ -> ("BAD-CASE", false, false))
